@@ -13,13 +13,13 @@ def run(ctx):
     queries += [('stuck', 14, ['bad:stranded'], way2(a, b)) for a, b in (('C', 'F'), ('C', 'C'))]
     configs = [('1x2', cfg, queries, ['c09'])]
     if not quick:
-        # three transactions on one target: the third is committed on top of a committed/failed pair, then 14 steps
+        # three transactions on one target: the third is committed on top of a committed(-not-applied)/failed pair, then 20 steps
         cfg3 = dict(nt=1, nx=3, sync=False, rollback=False, faults=False, crash=False)
         def way3(a, b, c):
             s1 = {'pred': 'reach:w-%s--' % a, 'depth': 18}
             s2 = {'pred': 'reach:w-%s%s-' % (a, b), 'depth': 18, 'seed': s1}
             return {'pred': 'reach:w-%s%s%s' % (a, b, c), 'depth': 24, 'seed': s2}
-        q3 = [('stuck', 14, ['bad:stranded'], way3(a, b, 'C')) for a, b in (('C', 'F'), ('C', 'C'), ('A', 'F'))]
+        q3 = [('stuck', 20, ['bad:stranded'], way3(a, b, 'C')) for a, b in (('C', 'F'), ('C', 'C'))]
         configs.append(('1x3', cfg3, q3, []))
     proto.run(ctx, 'C09', configs,
               'BMC deadlock-freedom: no reachable state is a fixed point of every Reconcile (probe step per id) while a transaction '
